@@ -643,6 +643,7 @@ func cmdCheck(args []string) {
 			"unbound_contracts":        unboundList,
 			"bounded_standins":         []string{},
 			"selftest":                 selftest,
+			"cross_check":              crossCheckSummary(jobs),
 			"b1_not_covered":           sweptUncovered,
 			"b1_atomic_fields_checked": b1AtomicChecked,
 			"contract_sources":         srcs,
@@ -775,6 +776,33 @@ func selfTest(prop string) map[string]interface{} {
 	}
 	return map[string]interface{}{"seeds_available": available, "seeds_applied": applied, "seeds_detected": detected, "seeds_missed": missed, "seeds_skipped": skipped,
 		"note": "must-fail corpus: each stored seeded change applied to a scratch copy of the current tree, quick check expected to alarm"}
+}
+
+// crossCheckSummary: thorough tier: how the sampled obligations fared with the solvers that did not discharge them.
+func crossCheckSummary(jobs []solveJob) map[string]interface{} {
+	sampled, agree, undecided := 0, 0, 0
+	var disagreements []string
+	for _, j := range jobs {
+		if len(j.o.CrossCheck) == 0 {
+			continue
+		}
+		sampled++
+		for _, c := range j.o.CrossCheck {
+			switch {
+			case strings.HasSuffix(c, ":unsat"):
+				agree++
+			case strings.HasSuffix(c, ":sat"):
+				disagreements = append(disagreements, j.o.Name+" "+c)
+			default:
+				undecided++
+			}
+		}
+	}
+	if sampled == 0 {
+		return nil
+	}
+	return map[string]interface{}{"obligations_sampled": sampled, "other_solver_agrees": agree, "other_solver_undecided": undecided, "disagreements": disagreements,
+		"note": "every 16th discharged obligation re-submitted to the two solvers that did not discharge it (20 s each)"}
 }
 
 func maxInt(a, b int) int {
